@@ -138,6 +138,8 @@ def rx_3_4(ctx, rep):
                             if isinstance(b, list) and n in b:
                                 body = b
                         nxt = body[body.index(n) + 1] if body and body.index(n) + 1 < len(body) else None
+                        if nxt is None and isinstance(parent, ast.Try) and body is parent.body and parent.orelse:
+                            nxt = parent.orelse[0]      # try: A  except IndexError: pass  else: B   runs A; B
                         ok = ok and isinstance(nxt, ast.Delete) and xnorm(nxt) == 'del %s[%s + 1]' % (name, i)
                         rep.ob('RX-4', UTILS, 'split_lines', norm(n), ok,
                                'list element overwritten by something else than the concatenation of itself and '
@@ -152,6 +154,8 @@ def rx_3_4(ctx, rep):
                             if isinstance(b, list) and n in b:
                                 body = b
                         prev = body[body.index(n) - 1] if body and body.index(n) > 0 else None
+                        if prev is None and isinstance(parent, ast.Try) and body is parent.orelse and parent.body:
+                            prev = parent.body[-1]
                         ok = isinstance(prev, ast.Assign) and len(prev.targets) == 1 \
                             and isinstance(prev.targets[0], ast.Subscript) and norm(prev.targets[0].value) == name \
                             and xnorm(t.slice) == '%s + 1' % xnorm(prev.targets[0].slice) \
